@@ -92,7 +92,10 @@ def check_theta(case):
         else:
             require(False, "unknown-implicit-integrator", "no reference scheme known for the exported implicit integrator %r: extend vf/props/c06.py" % name)
         err = float(np.max(np.abs(got - ref))) / scale
-        require(err <= 1e-6, "linearised-system", "%s step %d (cfl=%g, %s dt, %s, %s mesh, n=%d): result differs from the dense solution of the %s system by %.3g (relative)"
+        # the finite-difference Jacobian of the linear operator is exact to ~1e-10 relative; the step multiplies that error by dt_i*|a|/dx_j, i.e. by the
+        # CFL number times the largest ratio of cell sizes when the time step is per cell
+        tol = 1e-6 + 1e-8 * case["cfl"] * (float(np.max(dx) / np.min(dx)) if local else 1.0)
+        require(err <= tol, "linearised-system", "%s step %d (cfl=%g, %s dt, %s, %s mesh, n=%d): result differs from the dense solution of the %s system by %.3g (relative)"
                 % (name, k + 1, case["cfl"], "per-cell" if local else "scalar", case["num"]["name"], case["mesh"]["kind"], n,
                    "theta" if name in THETA else ("Crank-Nicolson" if k == 0 else "BDF2"), err))
         worst = max(worst, err)
